@@ -76,10 +76,13 @@ structure Payload (H : Type) where
   deriving DecidableEq, Repr
 
 /-- Signature scheme parameter: `sign` with the publisher's private key; `verify publisher …` with
-the public key extracted from the publisher's peer id. -/
+the public key extracted from the publisher's peer id (when `hasKey`). -/
 structure SigScheme (H : Type) where
   sign : Payload H → Bytes
   verify : Bytes → Payload H → Bytes → Bool
+  /-- `peer.ID.ExtractPublicKey` succeeds: the peer id embeds its public key (Ed25519, secp256k1);
+  ids of RSA / ECDSA keys are hashes and do not. -/
+  hasKey : Bytes → Bool
 
 /-- `propeller.Unit`. -/
 structure PUnit (H : Type) where
